@@ -89,8 +89,24 @@ def one_run(docs, run, by_title):
     return {"draws": draws, "out": out_rules}
 
 
+def materialize(docs):
+    """rebuild the object sharing a JSON case cannot express: {"$same_as": i} is the same dict object as
+    document i, a condition {"$cond_of": i} the same list object as document i's condition"""
+    out = []
+    for d in docs:
+        if "$same_as" in d:
+            out.append(out[d["$same_as"]])
+            continue
+        d = copy.deepcopy(d)
+        det = d.get("detection")
+        if isinstance(det, dict) and isinstance(det.get("condition"), dict) and "$cond_of" in det["condition"]:
+            det["condition"] = out[det["condition"]["$cond_of"]]["detection"]["condition"]
+        out.append(d)
+    return out
+
+
 def run(case):
-    docs = case["docs"]
+    docs = materialize(case["docs"])      # copy.deepcopy below keeps the sharing inside one load
     # ---- source meaning: nothing applied ----
     src = SigmaCollection.from_dicts(copy.deepcopy(docs), collect_filters=True)
     src_rules = [rule_view(r) for r in src.rules]
